@@ -114,12 +114,13 @@ func receiverRows() []measure.V17Row {
 // configuration, faults, scripts
 
 type cfgT struct {
-	Mode string `json:"mode"` // receiver: default (reordering, gap 5, buffer 10) | seq | w2 (gap 2, buffer 2) | b1 (gap 3, buffer 1)
-	Lay  layT   `json:"lay"`  // file layout of the part
-	CS   uint32 `json:"cs"`   // sender chunk size in bytes
+	Kind string `json:"kind,omitempty"` // engine: "" = measure (this file) | stream | trace (stream.go, tracesync.go)
+	Mode string `json:"mode"`           // receiver: default (reordering, gap 5, buffer 10) | seq | w2 (gap 2, buffer 2) | b1 (gap 3, buffer 1)
+	Lay  layT   `json:"lay"`            // file layout of the part
+	CS   uint32 `json:"cs"`             // sender chunk size in bytes
 }
 
-func (c cfgT) String() string { return fmt.Sprintf("%s/cs%d/%s", c.Lay, c.CS, c.Mode) }
+func (c cfgT) String() string { return fmt.Sprintf("%s%s/cs%d/%s", c.Kind, c.Lay, c.CS, c.Mode) }
 
 type fault struct {
 	Kind string `json:"k"`
@@ -264,12 +265,11 @@ func model(s *script, n int, mode string) string {
 		if it.Bad == "flip" {
 			return false
 		}
-		if len(it.Req.PartsInfo) > 0 {
-			id := it.Req.PartsInfo[0].Id
-			if havePart && id != curPart {
+		for _, pi := range it.Req.PartsInfo { // trace: one chunk may carry several parts (core + index parts, same id)
+			if havePart && pi.Id != curPart {
 				poisoned = true // a different part id is a part boundary: the part before it was closed incomplete
 			}
-			curPart, havePart = id, true
+			curPart, havePart = pi.Id, true
 		}
 		applied = append(applied, it.ID)
 		return true
@@ -893,6 +893,9 @@ type resultT struct {
 
 // runOpen executes one open-loop case.
 func runOpen(c caseT, base []*clusterv1.SyncPartRequest, scOverride *script) resultT {
+	if c.Cfg.Kind != "" {
+		return runOpenK(c, base, scOverride)
+	}
 	n := len(base) - 1
 	sc := scOverride
 	if sc == nil {
@@ -1233,6 +1236,9 @@ type loopOut struct {
 // runLoop executes one closed-loop case: the sender table runs its real syncSnapshot against the receiver.
 // n = number of data chunks of the clean sequence (-1 while recording, when it is not known yet).
 func runLoop(c caseT, f loopFault, nChunks int) loopOut {
+	if c.Cfg.Kind != "" {
+		return runLoopK(c, f, nChunks)
+	}
 	sp := senderOf(c.Cfg.Lay)
 	dir := caseDir()
 	defer os.RemoveAll(dir)
@@ -1676,7 +1682,8 @@ func plan(thorough bool) *planT {
 			}
 		}
 	}
-	return p
+	planKinds(p, thorough)
+	return filterKinds(p)
 }
 
 // ---------------------------------------------------------------------------------------------------------------
@@ -1790,7 +1797,7 @@ func worker(wi, wn int, thorough bool) {
 		if i%wn != wi {
 			continue
 		}
-		base := loadBase(c.Cfg.Lay, c.Cfg.CS)
+		base := loadBaseK(c.Cfg)
 		c := c
 		note(c, len(base)-1, runOpen(c, base, nil), func() any { return openArtefact(c, base) })
 	}
@@ -1847,32 +1854,36 @@ func worker(wi, wn int, thorough bool) {
 		fmt.Printf("timing: open %.1fs loop %.1fs\n", tOpen.Seconds(), (time.Since(t0) - tOpen).Seconds())
 	}
 	b, _ := json.Marshal(out)
-	par.Emit(b)
+	par.Emit(spill(b, wi))
 }
 
-func record(l layT, cs uint32) ([]*clusterv1.SyncPartRequest, map[string]bool) {
+func record(l layT, cs uint32, kind ...string) ([]*clusterv1.SyncPartRequest, map[string]bool) {
+	rc := caseT{Phase: "record", Cfg: cfgT{Lay: l, CS: cs, Mode: "default", Kind: strings.Join(kind, "")}}
 	orders := map[string]bool{}
 	var best []*clusterv1.SyncPartRequest
 	tries := 1
-	if l.NF > 1 {
+	if l.NF > 1 && rc.Cfg.Kind != "trace" { // trace: NF counts indexes, the wire order of parts and files is fixed
 		tries = 24 // the file order of a part with several tag families is Go map order: take a canonical one
 	}
 	for t := 0; t < tries; t++ {
-		o := runLoop(caseT{Phase: "record", Cfg: cfgT{Lay: l, CS: cs, Mode: "default"}}, loopFault{Kind: "none"}, -1)
+		o := runLoop(rc, loopFault{Kind: "none"}, -1)
 		for try := 0; o.res.Invalid != "" && try < 10; try++ {
-			o = runLoop(caseT{Phase: "record", Cfg: cfgT{Lay: l, CS: cs, Mode: "default"}}, loopFault{Kind: "none"}, -1)
+			o = runLoop(rc, loopFault{Kind: "none"}, -1)
 		}
 		if o.res.Invalid != "" {
 			harnessErr("cannot record a clean transfer: %s", o.res.Invalid)
 		}
 		if o.res.Key != "" || o.res.Class != "clean" {
 			// a clean transfer that is not clean is a verdict, reported by the rx/loop phases as well; recording goes on
-			fmt.Printf("note: clean recording run %s cs=%d ended %s %s\n", l, cs, o.res.Class, o.res.Key)
+			fmt.Printf("note: clean recording run %s%s cs=%d ended %s %s\n", rc.Cfg.Kind, l, cs, o.res.Class, o.res.Key)
 		}
 		ord := fileOrder(o.rec)
 		orders[ord] = true
 		if best == nil || ord < fileOrder(best) {
 			best = o.rec
+		}
+		if o.res.Class != "clean" {
+			break // a broken clean transfer (retries, back-off): one recording is enough to go on with
 		}
 	}
 	return best, orders
@@ -1953,6 +1964,7 @@ func main() {
 			r.Add("evaluations_record", len(orders))
 		}
 	}
+	recordKinds(r, chunks, &orderCount, thorough) // stream.go: the same for the stream and trace engines
 	// 2. enumeration in workers
 	results, perr := par.Run(16, "C17_SCRATCH="+scratch)
 	if perr != nil {
@@ -1968,7 +1980,7 @@ func main() {
 	var flaky, invalid, samples []string
 	for _, b := range results {
 		var wo workerOut
-		if err := json.Unmarshal(b, &wo); err != nil {
+		if err := json.Unmarshal(unspill(b), &wo); err != nil {
 			_ = os.RemoveAll(scratch)
 			fmt.Println("HARNESS-ERROR: bad worker result:", err)
 			os.Exit(2)
@@ -2029,6 +2041,9 @@ func main() {
 	for s, v := range sigs {
 		parts := strings.Split(s, "/")
 		k := parts[0]
+		if len(parts) > 1 && engines[parts[1]] != nil {
+			k += "/" + parts[1]
+		}
 		for _, p := range parts {
 			if p == "clean" || p == "unchanged" || p == "bad" || strings.HasPrefix(p, "restart:") {
 				k += ":" + p
@@ -2057,6 +2072,8 @@ func main() {
 	r.Set("pairs_degenerate_not_run", pl.degenerate+skipped["pairs"])
 	r.Set("pairs_same_sequence_as_another_pair_not_run", pl.duplicates)
 	r.Set("distinct_outcomes", len(sigs))
+	r.Set("evaluations_by_phase_and_engine", kindCounts(sigs))
+	r.Set("trace_rx_single_fault_cases_at_part_boundaries", boundaryStats(pl))
 	r.Set("violating_cases_by_key", vcases)
 	sort.Strings(flaky)
 	if flaky == nil {
@@ -2071,11 +2088,12 @@ func main() {
 	r.Set("file_orders_seen_while_recording", orderCount)
 	r.Set("phases", []string{"record", "rx", "pairs", "loop", "cluster"})
 	r.Set("rule", "one evaluation = one transfer executed on the real receiver (rx/pairs: recorded chunk sequence with the fault(s) applied; loop: real sender and receiver over gRPC with the fault injected in a stream interceptor); non-trivial = the executed message sequence / injected fault differs from the clean transfer; all cases are distinct (pairs are deduplicated by the message sequence they produce; degenerate pairs, whose second fault has lost its target, are not run; both counted separately). Phase cluster: one evaluation = one request answered by one cluster configuration and compared with the standalone server's answer; non-trivial = the standalone answer is an error or has at least one row")
-	r.Assume("part-transfer phases: measure engine only; TSDB/segment layer below the part handler is a stub that hands out one real tsTable")
+	r.Assume("part-transfer phases: measure, stream and trace(+sidx) engines; TSDB/segment layer below the part handler is a stub that hands out one real tsTable")
+	r.Assume("trace: manifest.json of an installed index part is compared with the sender's without the node-local fields id and segmentID")
 	r.Assume("cluster phase: pkg/test/setup's in-process nodes, the generated stubs and Inspect's pending/row counters are trusted; placement is audited at block level (series, timestamp bounds, row counts)")
 	r.Assume("the receiver's wall-clock buffer timeout (5 s) is moved out of reach; no verdict depends on time")
 	r.Assume("tag-family file order of the base sequences is the lexicographically smallest of the Go map orders seen in 24 clean recordings")
-	fmt.Printf("C17 evaluations=%d (rx=%d pairs=%d loop=%d) nontrivial=%d distinct_outcomes=%d\n", total, evals["rx"], evals["pairs"], evals["loop"], nt, len(sigs))
+	fmt.Printf("C17 evaluations=%d (rx=%d pairs=%d loop=%d) nontrivial=%d distinct_outcomes=%d by-engine=%v\n", total, evals["rx"], evals["pairs"], evals["loop"], nt, len(sigs), kindCounts(sigs))
 	var cl []string
 	for k, v := range classes {
 		cl = append(cl, fmt.Sprintf("%s=%d", k, v))
@@ -2140,7 +2158,11 @@ func replay(path string) {
 	}
 	mydir = filepath.Join(scratch, "drv")
 	a := doc.Artefact
-	buildTemplates(a.Case.Cfg.Lay)
+	if a.Case.Cfg.Kind != "" {
+		buildTemplatesK(a.Case.Cfg.Kind, a.Case.Cfg.Lay)
+	} else {
+		buildTemplates(a.Case.Cfg.Lay)
+	}
 	var res resultT
 	if a.Loop != nil {
 		res = runLoop(a.Case, *a.Loop, a.N).res
@@ -2162,7 +2184,7 @@ func replay(path string) {
 		}
 		res = runOpen(a.Case, base, sc)
 	} else {
-		base, _ := record(a.Case.Cfg.Lay, a.Case.Cfg.CS)
+		base, _ := record(a.Case.Cfg.Lay, a.Case.Cfg.CS, a.Case.Cfg.Kind)
 		res = runOpen(a.Case, base, nil)
 	}
 	_ = os.RemoveAll(scratch)
